@@ -2,9 +2,15 @@
     outcome.  The inner [invert_matrix] call of [AR::fit] is answered from the recorded
     (argument, result) pair of the real call: the model's argument must be bit-equal to the
     recorded one (a miss is a disagreement), and the recorded result (or panic) is what the
-    model continues with. *)
+    model continues with.
+
+    END-TO-END cases ([CFitE], [CFitPredictE]): nothing is recorded.  [inv] is C01's executable model of
+    [invert_matrix] ([slice_invert], Model/SolveInst.v) run on binary64, so [AR::new(p).fit(data)] — and the
+    pipeline fit-then-[predict(data, h)] — is reproduced bit for bit by one Gallina term.  The recorded
+    cases are kept: they localise a disagreement (inside the solve / around it). *)
 From Coq Require Import List Floats ZArith Bool.
-From Compute Require Export Base.Ops Base.ListMat Model.Reduce Model.MatMul Model.TimeSeries.
+From Compute Require Export Base.Ops Base.ListMat Model.Reduce Model.MatMul Model.TimeSeries
+  Model.Subst Model.Cholesky Model.LU Model.Solve Model.SolveInst.
 Import ListNotations.
 
 Inductive case :=
@@ -12,7 +18,9 @@ Inductive case :=
 | CDiff (x : list float) (e : outcome (list float))
 | CFit (p : nat) (data arg : list float) (res e : outcome (list float))
 | CPredOne (coeffs : list float) (mu : float) (data : list float) (e : outcome (list float))
-| CPredict (coeffs : list float) (mu : float) (data : list float) (h : nat) (e : outcome (list float)).
+| CPredict (coeffs : list float) (mu : float) (data : list float) (h : nat) (e : outcome (list float))
+| CFitE (p : nat) (data : list float) (e : outcome (list float))
+| CFitPredictE (p : nat) (data : list float) (h : nat) (e : outcome (list float)).
 
 (** the recorded inner call as a one-entry table *)
 Definition inv_tbl (arg : list float) (res : outcome (list float)) (A : list float) : option (list float) :=
@@ -31,4 +39,9 @@ Definition check (c : case) : bool :=
   | CPredOne coeffs mu data e =>
       fout_eqb (opt_out (option_map (fun v => [v]) (predict_one FO0 coeffs mu data))) e
   | CPredict coeffs mu data h e => fout_eqb (opt_out (predict FO0 coeffs mu data h)) e
+  | CFitE p data e =>
+      fout_eqb (opt_out (option_map state_out (ar_new_fit FO0 (slice_invert FO0) p data))) e
+  | CFitPredictE p data h e =>
+      fout_eqb (opt_out (let* st := ar_new_fit FO0 (slice_invert FO0) p data in
+                         predict FO0 (fst st) (snd st) data h)) e
   end.
